@@ -115,18 +115,27 @@ def num(q):
     return int(q) if q.denominator == 1 else float(q)
 
 
-def to_py(t, sq, rng=None):
+def fnum(q, exponent=False):
+    """constants are binary64 (integer-typed constants turn into numpy integers under np.abs / np.sign, and
+    numpy refuses negative integer powers of those: outside the real-number domain modelled here);
+    exponents of ** stay python ints to exercise that path"""
+    q = Fraction(q)
+    return int(q) if exponent and q.denominator == 1 else float(q)
+
+
+def to_py(t, sq, rng=None, exponent=False):
     """build the epgpy Expression with the public operators (raw numbers for some constant operands)"""
     k = t[0]
     if k == "c":
-        return sq.Constant(num(t[1]))
+        return sq.Constant(fnum(t[1], exponent))
     if k == "v":
         return sq.Variable(t[1])
     f, args = t[1], t[2]
     raw = [a[0] == "c" and rng is not None and rng.random() < 0.5 for a in args]
     if len(args) == 2 and all(raw):
         raw[rng.randrange(2)] = False
-    ex = [num(a[1]) if r else to_py(a, sq, rng) for a, r in zip(args, raw)]
+    isexp = [f == "pow" and i == 1 for i in range(len(args))]
+    ex = [fnum(a[1], e) if r else to_py(a, sq, rng, e) for a, r, e in zip(args, raw, isexp)]
     if f == "add":
         return ex[0] + ex[1]
     if f == "sub":
@@ -220,7 +229,7 @@ def gen_expr_case(rng, mode, sq):
         sub_t = gen_tree(rng, 1, mode if mode == "exact" else "exact")
         sigma = {"x": ("e", sub_t), "y": ("s", rng.choice(VARS)), "z": ("n", Fraction(rng.randint(-6, 6), 2))}
         sigma = {k: s for k, s in sigma.items() if rng.random() < 0.7}
-        pysig = {k: (to_py(s[1], sq, rng) if s[0] == "e" else s[1] if s[0] == "s" else num(s[1])) for k, s in sigma.items()}
+        pysig = {k: (to_py(s[1], sq, rng) if s[0] == "e" else s[1] if s[0] == "s" else fnum(s[1])) for k, s in sigma.items()}
         obs = {"val": observe(lambda: ex(**fvals))}
         obs["d1"] = {v: observe(lambda v=v: ex.derive(v)(**fvals)) for v in dv}
         obs["d2"] = observe(lambda: ex.derive(v1).derive(v2)(**fvals))
